@@ -172,6 +172,16 @@ class Gen:
             vals = set(cs)
             upd = ("choice", [(num(c), num(p)) for c, p in zip(cs, ps)])
             self.feat("fin-choice-consts")
+            if self.profile == "symbolic" and r.random() < 0.6:
+                # numeric and symbolic probabilities mixed in one finite-valued choice: every alternative stays possible
+                pn = r.choice(PARAM_NAMES[:2])
+                self.params[pn] = "prob"
+                half_p = mul(num(F(1, 2)), var(pn))
+                if k == 2:
+                    upd = ("choice", [(num(cs[0]), half_p), (num(cs[1]), binop("-", num(1), half_p))])
+                else:
+                    upd = ("choice", [(num(cs[0]), num(F(1, 4))), (num(cs[1]), half_p), (num(cs[2]), binop("-", num(F(3, 4)), half_p))])
+                self.feat("fin-choice-symbolic-probability")
         elif kind == "choice-frac":
             cs = r.sample([F(1, 2), F(3, 2), F(0), F(1), F(-1, 2)], 2)
             vals = set(cs)
